@@ -112,6 +112,10 @@ func genPlain(addrs, threads, imax int) func(t *rapid.T, k string) Step {
 			st.B = rapid.SampledFrom(oneIn10).Draw(t, "b")
 			st.G = rapid.SampledFrom(oneIn8).Draw(t, "g")
 			st.D = rapid.SampledFrom(oneIn10).Draw(t, "d")
+			// every argument of Connection is per-request data (dialers.go): the
+			// dialer name and the kind of context, whatever the address holds
+			st.Dn = rapid.SampledFrom(dialerSprinkle).Draw(t, "dn")
+			st.Dl = rapid.SampledFrom(deadlineSprinkle).Draw(t, "dl")
 		case "fin":
 			st.I = idx(t, 2)
 			st.OK = rapid.SampledFrom(twoIn3).Draw(t, "ok")
@@ -144,10 +148,13 @@ var (
 	ctxKinds  = []string{"bg", "bg", "bg", "bg", "bg", "bg", "bg", "bg", "bg", "own", "own", "own", "own", "own", "own", "pre"}
 	dialModes = []int{0, 0, 0, 0, 0, 0, 0, 0, 0, 1, 1, 1, 1, 1, 1, 1, 1, 2, 2, 2}
 	oneIn3    = bools(1, 3)
-	oneIn5    = bools(1, 5)
-	twoIn3    = bools(2, 3)
-	oneIn8    = bools(1, 8)
-	oneIn10   = bools(1, 10)
+	// indices into dialerTable / deadlines; plain first
+	dialerSprinkle   = []int{0, 0, 0, 0, 0, 0, 0, 0, 0, 0, 0, 0, 1, 1, 2, 3, 4, 5}
+	deadlineSprinkle = []int{0, 0, 0, 0, 0, 0, 0, 0, 0, 0, 0, 0, 0, 0, 1, 2, 3, 4}
+	oneIn5           = bools(1, 5)
+	twoIn3           = bools(2, 3)
+	oneIn8           = bools(1, 8)
+	oneIn10          = bools(1, 10)
 )
 
 func genScenario(t *rapid.T) *Scenario {
